@@ -12,7 +12,7 @@ def expectedC12 : List (String × String) := [
   ("file:compat.py", "2a259e16acd200bc"),
   ("file:config.py", "142bde514c82c29d"),
   ("file:transform/basics.py", "093d71f68c43a00a"),
-  ("file:transform/conversions.py", "c717da0d8eb0ba94"),
+  ("file:transform/conversions.py", "2209b8de15c75a9f"),
   ("file:transform/fills.py", "dd9addc453365c1c"),
   ("file:transform/headers.py", "b170f0cc5a1c0354"),
   ("file:transform/maps.py", "e13eb9e40cc9aa94"),
@@ -40,7 +40,7 @@ def expectedC12 : List (String × String) := [
   ("transform.basics.iterstack", "567c1bd52ee4dddc"),
   ("transform.conversions.FieldConvertView", "b1346e6539cc1ac2"),
   ("transform.conversions.convert", "7d0e99f18f920024"),
-  ("transform.conversions.convertall", "73d2c6238641ab6b"),
+  ("transform.conversions.convertall", "e55e36571c365f13"),
   ("transform.conversions.iterfieldconvert", "ee107c581a77cc3a"),
   ("transform.conversions.replace", "8ead0995c13b926d"),
   ("transform.conversions.replaceall", "b047d03a0f5a5c8e"),
